@@ -836,7 +836,7 @@ func c14Attribute(run *c14Run, t c14TR, fails []string) []c14Attr {
 			brokenLines = append(brokenLines, broken{-1, sigQuoteNL}) // a parse error: nothing of the file is evaluated
 		case c14HasGo(b.Val, "extension"):
 			brokenLines = append(brokenLines, broken{li, sigExt})
-		case b.Kind == "func" && !b.Faithful && li >= 0 && !presentA(b.Name):
+		case b.Kind == "func" && c14FuncFlag(sr, b.Name+"(", "unfaithful") && li >= 0 && !presentA(b.Name):
 			brokenLines = append(brokenLines, broken{li, sigPrinter})
 		}
 	}
@@ -868,7 +868,7 @@ func c14Attribute(run *c14Run, t c14TR, fails []string) []c14Attr {
 				add(f, sigAlias, tag)
 			case !present && tag == "W" && brokenBefore(name) != "":
 				add(f, brokenBefore(name), tag)
-			case !present && b.Kind == "func" && !b.Faithful:
+			case !present && b.Kind == "func" && c14FuncFlag(sr, name+"(", "unfaithful"):
 				add(f, sigPrinter, tag)
 			case !present:
 				add(f, sigLost, tag)
@@ -919,7 +919,7 @@ func c14Attribute(run *c14Run, t c14TR, fails []string) []c14Attr {
 			// name=value lines, with every `func name(..)` line kept whole
 			var want []string
 			for _, l := range c14SplitLines(sr.FileU) {
-				if c14ValueLen(l) <= sr.Lim || c14IsFuncLine(l) {
+				if c14ValueLen(l) <= sr.Lim || c14IsFuncLine(l) || binds[c14LineName(l)].Own != "" {
 					want = append(want, l)
 				}
 			}
@@ -1014,7 +1014,7 @@ func c14FuncFlag(sr *c14SaveRec, expr, flag string) bool {
 	}
 	switch flag {
 	case "unfaithful":
-		return !fi.Faithful
+		return !fi.Faithful && len(fi.Loss) > 0
 	case "unfaithful-escape":
 		return !fi.Faithful && fi.Escapes
 	case "closure":
@@ -1025,7 +1025,7 @@ func c14FuncFlag(sr *c14SaveRec, expr, flag string) bool {
 
 func c14AnyUnfaithfulFunc(sr *c14SaveRec) bool {
 	for _, f := range sr.Funcs {
-		if !f.Faithful {
+		if !f.Faithful && len(f.Loss) > 0 {
 			return true
 		}
 	}
@@ -1174,9 +1174,58 @@ func c14ModelDiff(cs *c14Case, run *c14Run, baseNames map[string]bool) []string 
 	return diffs
 }
 
+// c14ProbeDeviations runs one pinned reproducer per named deviation of SaveLoad.tla on the tree under test and
+// reports which deviations it still shows.
+func c14ProbeDeviations(root string) (dev []string, notes map[string]string, err error) {
+	long := strings.Repeat("x", 70000)
+	probes := []struct {
+		dev, id, src string
+		lim          int
+	}{
+		{"FloatNoPoint", "probe:float", "a=3.0; b=-0.0", 0},
+		{"MinIntLiteral", "probe:minint", "a=-9223372036854775807-1", 0},
+		{"NameForms", "probe:names", "Inf=5; x=1.0/0", 0},
+		{"QuoteEscapes", "probe:escapes", `s="\x07\x08\x0b\x0c"`, 0},
+		{"ClosureNoEnv", "probe:closure", "func mk(x){func(y){x+y}}; add2=mk(2)", 0},
+		{"FuncOwnName", "probe:alias", "func f(a){a+1}; g=f", 0},
+		{"LossyFuncPrint", "probe:printer", "func f(a,b,c){a-(b-c)}; func g(a,b){a - -b}; func h(a,b){a; -b}; c=5; l=()=>{c=c+1}", 0},
+		{"ExtUsage", "probe:ext", "p=sprintf; z=5", 0},
+		{"QuoteMultiLine", "probe:quote", "x=quote(if a {b} else {c}); z=1", 0},
+		{"ScannerLimit", "probe:scanner", `a="` + long + `"; b=2`, 0},
+		{"NamedFuncNoLimit", "probe:limit", "func f(a,b){a+b+a+b}", 5},
+	}
+	var jobs []c14Job
+	for _, p := range probes {
+		jobs = append(jobs, c14Job{ID: p.id, Src: p.src, Lim: p.lim})
+	}
+	runs, err := c14RunJobs(root, jobs, 4)
+	if err != nil {
+		return nil, nil, err
+	}
+	notes = map[string]string{}
+	for _, p := range probes {
+		run := runs[p.id]
+		if run == nil || run.Save.SetupErr != "" {
+			return nil, nil, fmt.Errorf("pinned reproducer %s could not be run: %+v", p.id, run)
+		}
+		t, err := c14Norm(c14Trace(run))
+		if err != nil {
+			return nil, nil, err
+		}
+		fails := c14Judge(t)
+		if len(fails) > 0 {
+			dev = append(dev, p.dev)
+			notes[p.dev] = fmt.Sprintf("%s -> still fails (%d items, first: %s)", p.src[:min(len(p.src), 60)], len(fails), fails[0])
+		} else {
+			notes[p.dev] = fmt.Sprintf("%s -> holds on this tree", p.src[:min(len(p.src), 60)])
+		}
+	}
+	return dev, notes, nil
+}
+
 // c14VerdictAgreement compares the model's verdict for a GEN case (SaveLoad under the code's rules) with the
 // real verdict restricted to the bindings the model knows (diagnosis only).
-func c14VerdictAgreement(cs *c14Case, fails []string) map[string]bool {
+func c14VerdictAgreement(cs *c14Case, run *c14Run, fails []string) map[string]bool {
 	if cs.MV == nil {
 		return nil
 	}
@@ -1191,7 +1240,12 @@ func c14VerdictAgreement(cs *c14Case, fails []string) map[string]bool {
 		case "oneline":
 			real["one"] = false
 		case "skipped":
-			real["skip"] = false
+			// the pre-seeded named function `str` is outside the model's environment
+			for _, b := range run.Save.Binds {
+				if user[b.Name] && b.Own != "" && b.Inspect > cs.Lim {
+					real["skip"] = false
+				}
+			}
 		case "idem":
 			real["idem"+parts[1]] = false
 		case "rt":
@@ -1274,9 +1328,23 @@ func checkC14(c *Ctx) {
 	}
 	c.Cov("design_counterexamples", cex)
 
-	// 2. GEN: the universe with the model's prediction under the code's actual rules
+	// 2. pinned reproducers: which of the named deviations does the tree under test still have? (they are run on
+	//    every check; the model that predicts the GEN cases is SaveLoad with exactly these deviations on)
+	codeDev, probeNotes, err := c14ProbeDeviations(filepath.Join(c.Scratch(), "c14probe"))
+	if err != nil {
+		c.Infra(err)
+		return
+	}
+	c.Cov("deviations_present_in_tree", codeDev)
+	c.Cov("pinned_reproducers", probeNotes)
+
+	// 3. GEN: the universe with the model's prediction under the code's actual rules
 	scopes := []string{"int", "float", "byte", "str", "scalar", "arr", "map", "pair", "name", "long", "func"}
-	gen, err := c.TLC(TLCOpt{Spec: "SaveLoad", Cfg: c14Cfg(c14CodeDev, c14ScanLimit, scopes, []int{0}, true, []string{"PrintOK"}, false), Workers: 4})
+	inv := []string{}
+	if len(codeDev) == len(c14CodeDev) {
+		inv = []string{"PrintOK"} // with every rule of the pinned code on, the model's printed form is GrolValues!Inspect
+	}
+	gen, err := c.TLC(TLCOpt{Spec: "SaveLoad", Cfg: c14Cfg(codeDev, c14ScanLimit, scopes, []int{0}, true, inv, false), Workers: 4})
 	if err != nil {
 		c.Infra(err)
 		return
@@ -1290,7 +1358,7 @@ func checkC14(c *Ctx) {
 	if c.Thorough() {
 		limits = []int{1, 2, 3, 4, 5, 9, 10, 11, 12, 13, 17, 18, 22, 23, 24, 25, 39, 40, 41, 42, 43, 44, 100}
 	}
-	genL, err := c.TLC(TLCOpt{Spec: "SaveLoad", Cfg: c14Cfg(c14CodeDev, c14ScanLimit, []string{"limit"}, limits, true, nil, false), Workers: 4})
+	genL, err := c.TLC(TLCOpt{Spec: "SaveLoad", Cfg: c14Cfg(codeDev, c14ScanLimit, []string{"limit"}, limits, true, nil, false), Workers: 4})
 	if err != nil {
 		c.Infra(err)
 		return
@@ -1307,10 +1375,10 @@ func checkC14(c *Ctx) {
 	}
 	nGen := len(cases)
 	// seeded combinations of emitted values (thorough: more) - TV only, no prediction
-	cases = append(cases, c14RandomCases(c, cases, c.Pick(150, 12000))...)
+	cases = append(cases, c14RandomCases(c, cases, c.Pick(150, 30000))...)
 	nRand := len(cases) - nGen
 	if c.Thorough() {
-		cases = append(cases, c14GeneratedFuncCases(c, 1500)...)
+		cases = append(cases, c14GeneratedFuncCases(c, 5000)...)
 	}
 	c.Cov("generated_function_cases", len(cases)-nGen-nRand)
 	c.Cov("gen_cases", nGen)
@@ -1417,7 +1485,7 @@ func checkC14(c *Ctx) {
 			}
 		}
 		if !cs.Random {
-			for k, agree := range c14VerdictAgreement(cs, tf) {
+			for k, agree := range c14VerdictAgreement(cs, run, tf) {
 				mvTotal[k]++
 				if agree {
 					mvAgree[k]++
